@@ -37,23 +37,37 @@ TRANSPARENT_CALLS = (
 )
 
 
+_TRANSPARENT_RX = re.compile(
+    r"(ops::Deref::deref|ops::DerefMut::deref_mut|borrow::Borrow::borrow|borrow::BorrowMut::borrow_mut|"
+    r"convert::AsRef::as_ref|convert::AsMut::as_mut|clone::Clone::clone|future::IntoFuture::into_future|"
+    r"pin::Pin::(new_unchecked|new|get_unchecked_mut|as_mut|get_mut|into_inner))$")
+
+
 def short_callee(t):
     """Canonical callee label: resolved impl method when known, else the declared path."""
     f = t["f"]
-    if "def" not in f:
-        return "<indirect>"
-    d = f["def"]
-    r = f.get("res")
-    return strip_generics(r if r else d)
+    c = f.get("_sc")
+    if c is None:
+        if "def" not in f:
+            c = "<indirect>"
+        else:
+            r = f.get("res")
+            c = strip_generics(r if r else f["def"])
+        f["_sc"] = c
+    return c
 
 
 def decl_callee(t):
     f = t["f"]
-    return strip_generics(f["def"]) if "def" in f else "<indirect>"
+    c = f.get("_dc")
+    if c is None:
+        c = strip_generics(f["def"]) if "def" in f else "<indirect>"
+        f["_dc"] = c
+    return c
 
 
 class State:
-    __slots__ = ("mem", "ptr", "ptrmut", "atoms", "effects", "blocks", "visits", "backs")
+    __slots__ = ("mem", "ptr", "ptrmut", "atoms", "effects", "blocks", "visits", "backs", "proots")
 
     def __init__(self):
         self.mem = {}
@@ -64,6 +78,7 @@ class State:
         self.blocks = []
         self.visits = {}
         self.backs = {}
+        self.proots = set()
 
     def fork(self):
         s = State()
@@ -75,6 +90,7 @@ class State:
         s.blocks = list(self.blocks)
         s.visits = dict(self.visits)
         s.backs = dict(self.backs)
+        s.proots = set(self.proots)
         return s
 
 
@@ -234,9 +250,12 @@ class Evaluator:
         if (cproj or pl.get("p")) and record:
             lv = self.read_canon(st, root, cproj)
             st.effects.append(("write", lv, val, line, root, cproj))
-        for key in [k for k in st.mem if k[0] == root and len(k[1]) > len(cproj) and k[1][:len(cproj)] == cproj]:
-            del st.mem[key]
+        if root in st.proots:
+            for key in [k for k in st.mem if k[0] == root and len(k[1]) > len(cproj) and k[1][:len(cproj)] == cproj]:
+                del st.mem[key]
         st.mem[(root, cproj)] = val
+        if cproj:
+            st.proots.add(root)
         if not cproj:
             st.ptr.pop(root, None)
             st.ptrmut.pop(root, None)
@@ -277,7 +296,12 @@ class Evaluator:
             a = self.operand(st, rv["op"])
             k = rv["cast"]
             if k.startswith("Ptr:") or k in ("PtrToPtr", "Subtype"):
-                return a, None  # unsizing etc.: value-transparent
+                # unsizing etc.: value-transparent; keep pointer tracking
+                o = rv["op"]
+                pl = o.get("cp") or o.get("mv")
+                if pl is not None and "p" not in pl and pl["l"] in st.ptr and "p" not in lhs:
+                    return a, ("ptr", st.ptr[pl["l"]], st.ptrmut.get(pl["l"], False))
+                return a, None
             return ("cast", k, rv["ty"], a, rv.get("from")), None
         if "discr" in rv:
             pl = rv["discr"]
@@ -439,6 +463,7 @@ class Evaluator:
             for i, (tb, atom) in enumerate(cand):
                 s2 = st if i == len(cand) - 1 else st.fork()
                 if atom is not None:
+                    atom = dict(atom, neff=len(s2.effects))
                     s2.atoms.append(atom)
                 stack.append((s2, tb, b))
 
@@ -446,7 +471,7 @@ class Evaluator:
         name = short_callee(t)
         decl = decl_callee(t)
         args = tuple(self.operand(st, o) for o in t["ops"])
-        if decl in self.transparent or name in self.transparent:
+        if decl in self.transparent or name in self.transparent or _TRANSPARENT_RX.search(decl):
             val = args[0] if args else ("c", "()", "zst", None)
             # keep pointer tracking through transparent calls
             o = t["ops"][0] if t["ops"] else None
@@ -456,13 +481,14 @@ class Evaluator:
                 st.ptr[t["dest"]["l"]] = st.ptr[pl["l"]]
                 st.ptrmut[t["dest"]["l"]] = st.ptrmut.get(pl["l"], False)
             return
-        if decl == "std::ops::Try::branch":
+        if decl.endswith("ops::Try::branch"):
             val = ("try", args[0])
-        elif decl == "std::future::Future::poll":
+        elif decl.endswith("Future::poll") and len(args) == 2:
             val = ("poll", args[0], site)
         else:
             val = ("call", name, args, site)
-        if decl != "std::ops::Try::branch":
+        if not decl.endswith("ops::Try::branch") and not (decl.endswith("Future::poll") and len(args) == 2) \
+                and not decl.endswith("future::get_context"):
             st.effects.append(("call", name, args, site, t.get("line"), decl, tuple(t["f"].get("args", ())), t))
         # havoc pointees of &mut arguments
         for o in t["ops"]:
@@ -472,9 +498,12 @@ class Evaluator:
                 old = self.read_canon(st, root, cproj)
                 while isinstance(old, tuple) and old[0] == "after":
                     old = old[3]
-                for key in [k for k in st.mem if k[0] == root and len(k[1]) > len(cproj) and k[1][:len(cproj)] == cproj]:
-                    del st.mem[key]
+                if root in st.proots:
+                    for key in [k for k in st.mem if k[0] == root and len(k[1]) > len(cproj) and k[1][:len(cproj)] == cproj]:
+                        del st.mem[key]
                 st.mem[(root, cproj)] = ("after", name, site, old)
+                if cproj:
+                    st.proots.add(root)
         self.write_place(st, t["dest"], val, t.get("line"))
 
 
@@ -658,6 +687,10 @@ def show(e, depth=0):
         return "%s[%s..%s%s]" % (show(e[1], d), e[2], "-" if e[4] else "", e[3])
     if k == "resume":
         return "resume"
+    if k == "repeat":
+        return "[%s; %s]" % (show(e[1], d), e[2])
+    if k == "tls":
+        return "tls(%s)" % e[1]
     return str(e)
 
 
